@@ -19,10 +19,12 @@ CLAIMED = {
         'departs from the DOCUMENTATION, two implementation-only oracles stand beside it: an independent reference interpreter of the documented '
         'AST semantics (props/c01_docref.py; every deviation class is a listed finding with the docs sentence it contradicts) and the '
         '"one element of its caller" oracle, whose exact guard is a theorem (C01_call_one_element_exact) with a replayed refutation witness. '
-        'Also proved: a successful parse never moves backwards nor past the end of the text (clean and faithful engine).',
+        'Also proved: a successful parse never moves backwards nor past the end of the text (clean and faithful engine); the dict law (names are never '
+        'removed from a frame, a sequence defines every name written in it, defaults None / []: KeysProof.v); collected elements stay in order '
+        '(PrefixProof.v); the trees of left / right joins for any number of operands (AssocProof.v).',
         'Trusted: Coq kernel, extraction, harness (IR printers, generators, canonicaliser); oracles from the real Python per case '
         '(re matches, unicode predicates, resolved ParserConfig, is_lrec/is_memo flags). Hand-written model, agreement with the code '
-        'established by the correspondence only. Not modelled: tracing, error messages, @nostak, EOL, left/right joins, rule includes.',
+        'established by the correspondence only. Not modelled: tracing, error messages, EOL; left/right joins are a construct of the model; rule includes and based rules reach the model as their documented expansions (made by the harness).',
         '7 C01'),
     'C04': (
         'Coq proof of memo transparency (simulation, strong induction on fuel) + configuration-matrix differential runs',
@@ -33,8 +35,10 @@ CLAIMED = {
         '{parseinfo} x {trace, colorize} and comparing every pair of outcomes with each other and with the model, on left-recursive '
         'grammars too (implementation-vs-implementation oracle): outcome with parseinfo entries erased, the parseinfo entries themselves among '
         'parseinfo-on settings, and the class and position of the reported failure; rules optionally @nomemo, semantics objects that reject / '
-        'raise, a retry-and-handing-on family. C04_parseinfo_only_adds_partial: at a rule invocation parseinfo changes nothing but the two reserved keys.',
-        'Trusted: as C01. Tracing/colouring are not in the model (checked by the oracle only). The theorem covers non-left-recursive '
+        'raise, a retry-and-handing-on family. C04_parseinfo_only_adds (PinfoRel.v): for WHOLE evaluations, parseinfo on / off end in the same outcome class, '
+        'exception, position and cut flag and in values equal after erasing the reserved entries (relational induction through every construct; '
+        'hypothesis: actions blind to those entries, shown satisfiable); lifted to the engine on grammars without left recursion.',
+        'Trusted: as C01. Tracing/colouring are not in the model (checked by the oracle only). The memo theorem covers non-left-recursive '
         'grammars; left-recursive ones are covered by the correspondence and oracle.',
         '7 C04'),
     'C02': (
@@ -44,8 +48,11 @@ CLAIMED = {
         'appends its value; refutation witness outside the fragment (replayed). Tied by G0 (generated source loads), G2 (real generated parser vs Gen.v, '
         'using the generated parser own configuration) and by the property oracle itself: generated parser vs model.parse under settings and semantics, '
         'every divergence classified by the two Coq evaluators (explained = known finding, unexplained = violation); configuration tables (incl. '
-        'keywords) of the two back-ends compared; probes for constructs outside the IR; histories on ONE reused parser object.',
-        'Trusted: as C01. Whole-grammar equivalence is not proved (partial): outside the fragment the code really differs (known findings D2a-d).',
+        'keywords) of the two back-ends compared; probes for constructs outside the IR; histories on ONE reused parser object. '
+        'C02_generated_parser_equals_model (GenEquiv.v): on the fragment genok (names / overrides over single-append expressions, no names defined by options of '
+        'choices or optionals, no list override) genparse_with = parse_with - same result AND same engine state - for every text, configuration, action oracle and fuel; '
+        'the extracted genok is asked for every case on which the generated parser and model.parse differ, and a differing case INSIDE the fragment is an unlisted violation.',
+        'Trusted: as C01. Outside the fragment the code really differs (known findings D2a-d), so the equivalence cannot hold there.',
         '7 C02'),
     'C03': (
         'Coq lemmas on the seed-growing loop + correspondence on left-recursive template grammars + independent reference parser',
@@ -58,7 +65,9 @@ CLAIMED = {
         '(direct, two-alternative, common-prefix, aliased, mutual, optional-prefixed, named, right-mix, unary, two layers; cuts in parentheses) '
         'and by an independent loop-based reference parser folding to the left; list-returning and rejecting semantics on the recursive rules, '
         'the generated parser (also one object reused over several texts), deep nesting and a selector template with a shared recursive prefix.',
-        'Trusted: as C01 plus the reference parser of the check. The left-fold theorem for arbitrary grammars is not proved (partial): the theorems are about the loop.',
+        'Trusted: as C01 plus the reference parser of the check. Association to the left is proved round by round for ANY grammar (PrefixProof.v: collected elements '
+        'are kept, the recursive call contributes the seed as one element, so the previous tree is the first element of the new one); the exact tree of a whole '
+        'chain for the template grammars is decided by the reference parser and the correspondence.',
         '7 C03'),
     'C05': (
         'Coq proofs of commit and containment laws for cuts + cut-dense differential runs + docs-equivalence oracle',
@@ -130,7 +139,10 @@ CLAIMED = {
         'directive, build-time setting, default (Config.v vs Config.override/hard_override). Tied by differential execution under input configurations given as '
         'directives or settings (upper/mixed-case tokens, constants before non-skipping elements, upper-case start rules, namechars histories in one process), '
         'by K1 (real Grammar/ParserConfig vs Config.v on random setting triples incl. empty strings), by the metamorphic relayout oracle and by reused-parser histories.',
-        'Trusted: as C01. The whitespace-invariance statement for whole parses is decided by the oracle, not by a theorem (partial). Known findings: settings given to tatsu.compile never reach the model; a closure iteration that only skips whitespace counts as progress.',
+        'Trusted: as C01. Whitespace invariance of WHOLE parses is a theorem reduced to the lexical primitives (C09_layout_invariance, LayoutRel.v: two texts, a one-to-one '
+        'correspondence of positions on which next_token / token / pattern / any-char / end-of-text agree => same value or same failure for every grammar; lifted to the engine on '
+        'grammars without left recursion); that a concrete re-layout yields such a correspondence is what the relayout oracle checks on the implementation. Also proved: whitespace at rule entry '
+        '(lower-case rules skip it, upper-case rules never). Known findings: settings given to tatsu.compile never reach the model; a closure iteration that only skips whitespace counts as progress.',
         '7 C09'),
     'C10': (
         'Coq state-machine model of the API caches (history independence invariant, schedule independence) + fresh-interpreter replay',
